@@ -662,7 +662,9 @@ class IPAddr6 (_AddrBase):
         raise RuntimeError("Host part of CIDR address is not zero (%s)"
                            % (addr,))
       return (r0,128-r1)
-    addr = addr.split('/', 2)
+    addr = addr.split('/')
+    if len(addr) > 2:
+      raise RuntimeError("More than one '/' in CIDR address")
     if len(addr) == 1:
       return check(IPAddr6(addr[0]), 0)
     try:
@@ -845,7 +847,9 @@ def parse_cidr (addr, infer=True, allow_host=False):
       raise RuntimeError("Host part of CIDR address is not zero (%s)"
                          % (addr,))
     return (r0,32-r1)
-  addr = addr.split('/', 2)
+  addr = addr.split('/')
+  if len(addr) > 2:
+    raise RuntimeError("More than one '/' in CIDR address")
   if len(addr) == 1:
     if infer is False:
       return check(IPAddr(addr[0]), 0)
